@@ -646,6 +646,7 @@ pub fn table() -> Vec<Entry> {
     ];
     t.extend(crate::props::c19x::table());
     t.extend(crate::props::c19s::table());
+    t.extend(crate::props::c19y::table());
     t
 }
 
@@ -786,7 +787,7 @@ fn declared_instructions(program_dir: &str) -> Option<Vec<String>> {
 
 pub fn run(ctx: &mut Ctx) {
     ctx.rule("policy table instruction -> required authority (ADMIN / named role / any-of / owner-or-designated-key / permissionless) written from the `# Errors` doc comments and #[access_control] attributes; table pass = every (instruction, caller class) pair once: fresh signer with no role, with each single other role, the store authority itself for role-gated instructions, and the authorised caller (holder of the required role, each role of an any-of, the store authority, a signer that received the store authority through the real two-step transfer, the owner / receiver / next authority), plus state-dependent variants of the two-step hand-overs (store receiver, store authority, liquidity-provider authority) started from the *pending* state, where the proposed holder must still be rejected, the current holder still accepted, and the current holder cannot accept for the proposed one; random pass = the same pairs with random argument draws; every instruction is built with well-formed accounts in a fresh W1 world (prerequisite state created with real instructions by the world's own keepers); oracle: lacking authority => Err with the permission-class code of the policy (NotAnAdmin, PermissionDenied, StoreOutdated after a restart, has_one / seeds / owner codes for owner-only instructions) AND the whole account map byte-identical; holding it => Ok (or the documented handler-body error for the two test-only/migration stubs), so an instruction counts as covered only when its authorised variant ran the handler; non-trivial = an unauthorised call that got as far as the permission check");
-    ctx.assume("svm-lite is not the Solana runtime; signatures are flags; the Metaplex token-metadata program is a stub that accepts every CPI (only the access-control path of create/update_token_metadata is exercised); custom price feed contents are synthesised through PriceFeed::update (hook) instead of a verified Chainlink report; instructions of the exchange world (W2: deposits, withdrawals, orders, shifts, GLV, positions, keeper execution) are listed as uncovered, not claimed");
+    ctx.assume("svm-lite is not the Solana runtime; signatures are flags; the Metaplex token-metadata program is a stub that accepts every CPI (only the access-control path of create/update_token_metadata is exercised); custom price feed contents of the worlds are synthesised through PriceFeed::update (hook); for update_price_feed_with_chainlink(_idempotent) the Chainlink verifier program is a stub that accepts every report (report decoding, feed ownership, role check and the feed update are real, the signature verification is not); the exchange, GLV, treasury-swap and staking entries (c19y) run in the seeded exchange world W2 into which the caller's identity is ported (same roles granted by the W2 admin, the W1 store authority becomes the W2 authority through the real two-step transfer); create_* instructions act on the signer's own accounts, their unauthorised variant is a signer naming somebody else's source token account (rejected by the token program: OwnerMismatch), close_* follow owner-or-ORDER_KEEPER-once-terminal; liquidity-provider::calculate_gt_reward is driven with the position id appended to the instruction data by hand (its accounts struct declares an argument the handler does not have)");
     let table = table();
     let kf1_open = true;
     // 1. every (entry, caller) pair once, deterministic
@@ -840,9 +841,9 @@ pub fn run(ctx: &mut Ctx) {
     if !not_passed.is_empty() {
         ctx.inconclusive(format!("authorised variant never passed for: {not_passed:?}"));
     }
-    ctx.floor("table:unauthorised_rejected", 600);
-    ctx.floor("table:wrong_role_rejected", 500);
-    ctx.floor("table:admin_without_role_rejected", 50);
+    ctx.floor("table:unauthorised_rejected", 1200);
+    ctx.floor("table:wrong_role_rejected", 900);
+    ctx.floor("table:admin_without_role_rejected", 130);
     ctx.floor("random:unauthorised_rejected", 1000);
     ctx.floor("random:authorised_ok", 1000);
 }
